@@ -73,13 +73,19 @@ pub fn run_case(c: &PeekCase) -> CaseResult {
             ud += 1;
             n += 1;
         }
-        ring.flush_submission_queue();
+        // what goes to the kernel is what the flush reports as waiting there (entries flushed earlier and not
+        // yet handed over included): the number a caller passes on to io_uring_enter
+        let reported = ring.flush_submission_queue();
         pending += n;
         if pending == 0 {
             continue;
         }
-        let n = if c.partial { (pending / 2).max(1) } else { pending };
-        pending -= n;
+        if reported != pending && !c.defer {
+            fail = Some(Failure::new("peek|flush_submission_queue|reported-count", format!("batch {b}: {pending} flushed entries have not been handed to the kernel yet, flush_submission_queue reports {reported}")));
+            break 'sub;
+        }
+        let n = if c.partial { (reported / 2).max(1) } else { reported };
+        pending -= n.min(pending);
         match catch(|| io_uring_enter(fd, n, 0, IoUringEnterFlags::empty())) {
             Ok(Ok(r)) if r == n as usize => {}
             Ok(Ok(r)) => {
@@ -108,14 +114,20 @@ pub fn run_case(c: &PeekCase) -> CaseResult {
     let mut rounds = 0;
     while fail.is_none() && pending > 0 && rounds < 64 {
         rounds += 1;
-        match catch(|| io_uring_enter(fd, pending, 0, IoUringEnterFlags::IORING_ENTER_GETEVENTS)) {
+        let reported = ring.flush_submission_queue();
+        if reported == 0 {
+            // the wrapper says nothing is waiting although entries were never handed over: they would never complete
+            break;
+        }
+        match catch(|| io_uring_enter(fd, reported, 0, IoUringEnterFlags::IORING_ENTER_GETEVENTS)) {
             Ok(Ok(r)) => pending -= (r as u32).min(pending),
             Ok(Err(e)) if e.code == Some(rusl::error::Errno::EBUSY) => break,
             Ok(Err(e)) => fail = Some(Failure::new("peek|io_uring_enter|error", format!("io_uring_enter(to_submit {pending}) failed: {e}"))),
             Err((loc, msg)) => fail = Some(Failure::new(format!("peek|panic|{loc}"), msg)),
         }
     }
-    if pending > 0 && fail.is_none() {
+    if pending > 0 && fail.is_none() && ring.flush_submission_queue() != 0 {
+        // the kernel would not take the rest (completion ring crowded): not what this case is about
         for s in &socks {
             sys::close_quiet(s[0]);
             sys::close_quiet(s[1]);
